@@ -306,9 +306,9 @@ def walk_no_nested(fn):
     while stack:
         n = stack.pop()
         yield n
+        if isinstance(n, (ast.FunctionDef, ast.AsyncFunctionDef, ast.ClassDef, ast.Lambda)):
+            continue  # a nested definition is yielded itself, its body is not walked
         for c in ast.iter_child_nodes(n):
-            if isinstance(c, (ast.FunctionDef, ast.AsyncFunctionDef, ast.ClassDef, ast.Lambda)):
-                continue
             stack.append(c)
 
 
@@ -627,3 +627,49 @@ def report(pid, tier, res, repo, t0, extra=None, quiet=False):
             print("VIOLATION property=%s replay=%s" % (pid, rp))
         return 1
     return 0
+
+
+# --------------------------------------------------------------------------- canonical text
+
+
+class _Canon(ast.NodeTransformer):
+    def __init__(self, rd, at, params, depth=0):
+        self.rd, self.at, self.params, self.depth = rd, at, params, depth
+
+    def visit_Name(self, node):
+        if self.rd is None or not isinstance(node.ctx, ast.Load) or node.id in self.params or self.depth > 6:
+            return node
+        defs = self.rd.defs(node.id, self.at)
+        if len(defs) == 1:
+            d = next(iter(defs))
+            if d.kind == "assign" and d.node is not None and not any(isinstance(x, ast.Name) and x.id == node.id for x in ast.walk(d.node)):
+                import copy as _copy
+
+                sub = _Canon(self.rd, d.stmt, self.params, self.depth + 1).visit(_copy.deepcopy(d.node))
+                return sub
+        return node
+
+    def visit_Attribute(self, node):
+        self.generic_visit(node)
+        if isinstance(node.value, ast.Name) and node.value.id == "self" and node.attr.startswith("_") and not node.attr.startswith("__"):
+            return ast.copy_location(ast.Attribute(value=node.value, attr=node.attr.lstrip("_"), ctx=node.ctx), node)
+        if isinstance(node.value, ast.Name) and node.value.id == "numpy":
+            return ast.copy_location(ast.Attribute(value=ast.Name(id="np", ctx=ast.Load()), attr=node.attr, ctx=node.ctx), node)
+        return node
+
+    def visit_Call(self, node):
+        self.generic_visit(node)
+        return node
+
+
+def canon(expr, rd=None, at=None, params=()):
+    """Canonical text of an expression: single-definition locals are replaced by their defining
+    expression, `self._x` and `self.x` are identified, numpy is spelled np.  Used so that rules which
+    recognise an expression shape are insensitive to renamed temporaries and private/public spelling."""
+    import copy as _copy
+
+    e = _copy.deepcopy(expr)
+    if rd is not None and at is None:
+        at = rd.stmt_of(expr)
+    e = _Canon(rd, at, set(params) | {"self", "cls"}).visit(e)
+    return " ".join(ast.unparse(e).split())
